@@ -1,7 +1,9 @@
-"""Pristine-process evaluator for oracle P1x (DESIGN §4): a separately spawned interpreter with a different
-PYTHONHASHSEED, *real* OS entropy, a real clock and its own (different) call history. It evaluates seeded call specs and
-returns only the digest of the outcome. If a seeded API is a function of (arguments, seed) only, the digest equals the
-one computed inside the simulated run.
+"""Pristine-process evaluator for oracle P1x (DESIGN §4, §8.2): a separately spawned interpreter with a different
+PYTHONHASHSEED and no simulator seams except a *different* entropy stream. Every request is evaluated in a forked child
+of the freshly imported server (so: no history at all), with OS entropy and the global generators replaced by streams
+derived from the request itself - different from anything the simulated run saw, yet a pure function of the request,
+so a replay gives the same answer. If a seeded API is a function of (arguments, seed) only, the digest equals the one
+computed inside the simulated run.
 
 protocol: one JSON object per line on stdin -> one JSON object per line on stdout."""
 import json
@@ -12,23 +14,35 @@ import sys
 VERIF = os.path.dirname(os.path.dirname(os.path.abspath(__file__)))
 
 
-def outcome_digest(nq, spec, ctx):
-    from engines import c10_registry as reg
+def _evaluate(nq, spec):
+    import random
+    import numpy as np
+    import torch
     from engines.c10_seeded import outcome_of
-    return outcome_of(nq, spec, True, ctx)[:2]
+    from simkit import rng as srng, seams
+    ent = random.Random(srng.h64('pristine-entropy', json.dumps(spec, sort_keys=True)))
+    orig_default_rng = np.random.default_rng
+
+    def default_rng(seed=None):
+        return orig_default_rng(ent.getrandbits(64) if seed is None else seed)
+    np.random.default_rng = default_rng
+    orig_random = random.Random
+
+    class R(orig_random, metaclass=seams._SimRandomMeta):
+        def __init__(self, x=None):
+            super().__init__(ent.getrandbits(64) if x is None else x)
+    random.Random = R
+    np.random.seed(ent.getrandbits(32))
+    random.seed(ent.getrandbits(64))
+    torch.manual_seed(ent.getrandbits(63))
+    kind, dig, _ = outcome_of(nq, spec, True, {})
+    return {'kind': kind, 'digest': dig}
 
 
 def serve():
     from simkit import worker
     worker.pin_threads()
     nq = worker.import_sut()
-    import numpy as np
-    import random
-    import torch
-    # a history of its own, from real entropy
-    np.random.rand(int.from_bytes(os.urandom(1), 'big') + 1)
-    random.random()
-    torch.rand(3)
     out = sys.stdout
     out.write(json.dumps({'ready': True}) + '\n')
     out.flush()
@@ -38,8 +52,7 @@ def serve():
             continue
         req = json.loads(line)
         try:
-            kind, dig = outcome_digest(nq, req['spec'], {})
-            resp = {'kind': kind, 'digest': dig}
+            resp = worker.run_in_child(lambda: _evaluate(nq, req['spec']), 600)
         except BaseException as e:  # noqa
             resp = {'kind': 'server_error', 'digest': f'{type(e).__name__}: {e}'}
         out.write(json.dumps(resp) + '\n')
